@@ -25,6 +25,7 @@
 #include <iostream>
 #include <chrono>
 #include <unistd.h>
+#include <sched.h>
 #include <fcntl.h>
 #include <signal.h>
 #include <sys/mman.h>
@@ -121,7 +122,7 @@ inline PropDef concurrent_of(const PropDef &b, int K = 4, int rounds = 6)
         std::vector<std::string> whys(K); std::vector<char> ok(K, 1); std::atomic<int> ready{0};
         auto worker = [&](int i) {
             in_concurrent() = true; ready++;
-            while (ready.load() < K) { /* common start */ }
+            for (int spin = 0; ready.load() < K; spin++) { if (spin > 2000) sched_yield(); } /* common start (yielding: the callers may outnumber the cores) */
             for (int r = 0; r < rounds && ok[i]; r++) { Ctx local; if (!bb(subs[i], local)) { ok[i] = 0; whys[i] = local.why; } }
             in_concurrent() = false;
         };
